@@ -1,4 +1,4 @@
-From Coq Require Import List Arith Bool Lia.
+From Coq Require Import List Arith Bool Lia Sorting.Permutation.
 Import ListNotations.
 
 Section Ids.
@@ -42,10 +42,331 @@ Proof. vm_compute. auto. Qed.
 
 Definition combine_ids := combine_pat pattern.
 Definition separate_ids := separate_pat pattern.
+(* keep the 64-position pattern folded during conversion checks (it is evaluated only by vm_compute) *)
+Strategy 1000 [combine_ids separate_ids pattern].
 
 Corollary C13_separate_prefix p s k : length p = 64 -> length s = 64 -> k <= 64 ->
   separate_ids (firstn k (combine_ids p s)) =
   (firstn (count_false (firstn k pattern)) p, firstn (count_true (firstn k pattern)) s).
 Proof. intros Hp Hs Hk. destruct pattern_counts as (A & B & C). apply separate_prefix; lia. Qed.
+
+Lemma count_split l : count_false l + count_true l = length l.
+Proof. unfold count_false, count_true. induction l as [|[|] l IH]; cbn; lia. Qed.
+
+(* the number of primary / secondary symbols among the first k positions *)
+Definition np (k : nat) := count_false (firstn k pattern).
+Definition ns (k : nat) := count_true (firstn k pattern).
+Lemma np_ns k : k <= 64 -> np k + ns k = k.
+Proof. intros H. unfold np, ns. rewrite count_split, firstn_length. destruct pattern_counts as (_ & _ & L). lia. Qed.
+
+Lemma combine_pat_length pat : forall p s, count_false pat <= length p -> count_true pat <= length s ->
+  length (combine_pat pat p s) = length pat.
+Proof. unfold count_false, count_true. induction pat as [|[|] pat IH]; intros p s Hp Hs; cbn [filter negb length] in *; [reflexivity| |].
+  - destruct s as [|x s']; [cbn in Hs; lia|]. cbn [combine_pat length] in *. rewrite IH; lia.
+  - destruct p as [|x p']; [cbn in Hp; lia|]. cbn [combine_pat length] in *. rewrite IH; lia. Qed.
+
+(* 64 = 50 + 14: a complete combined id holds the first 50 symbols of the primary and the first 14 of the secondary *)
+Lemma combine_lengths p s : length p = 64 -> length s = 64 ->
+  length (combine_ids p s) = 64 /\ separate_ids (combine_ids p s) = (firstn 50 p, firstn 14 s).
+Proof. intros Hp Hs. destruct pattern_counts as (A & B & C). split.
+  - unfold combine_ids. rewrite combine_pat_length; lia.
+  - assert (E : combine_ids p s = firstn 64 (combine_ids p s)).
+    { symmetry. apply firstn_all2. unfold combine_ids. rewrite combine_pat_length; lia. }
+    rewrite E, C13_separate_prefix by lia. rewrite <- C at 1 2. rewrite firstn_all, A, B. reflexivity. Qed.
+
+(* ---- SeparateIds as written in Go: the position alone decides, whatever the length of the input ---- *)
+Fixpoint separate_at (i : nat) (x : list sym) : list sym * list sym :=
+  match x with
+  | [] => ([], [])
+  | c :: x' => let '(p, s) := separate_at (S i) x' in if is_secondary i then (p, c :: s) else (c :: p, s)
+  end.
+Definition separate_go := separate_at 0.
+
+Lemma separate_at_pat n : forall i x, length x <= n -> separate_at i x = separate_pat (map is_secondary (seq i n)) x.
+Proof. induction n as [|n IH]; intros i x H.
+  - destruct x; [reflexivity|cbn in H; lia].
+  - destruct x as [|c x']; [reflexivity|]. cbn [length] in H. cbn [seq map separate_at separate_pat].
+    rewrite IH by lia. reflexivity. Qed.
+Lemma separate_go_ids x : length x <= 64 -> separate_go x = separate_ids x.
+Proof. intros H. apply (separate_at_pat 64 0 x H). Qed.
+
+(* ---- prefixes ---- *)
+Definition is_prefix (x y : list sym) := exists t, y = x ++ t.
+Lemma is_prefix_nil y : is_prefix [] y.
+Proof. exists y. reflexivity. Qed.
+Lemma is_prefix_cons a b x y : is_prefix (a :: x) (b :: y) <-> a = b /\ is_prefix x y.
+Proof. split.
+  - intros [t H]. cbn in H. inversion H; subst. split; [reflexivity|exists t; reflexivity].
+  - intros [-> [t ->]]. exists t. reflexivity. Qed.
+Lemma is_prefix_of_nil a x : ~ is_prefix (a :: x) [].
+Proof. intros [t H]. discriminate. Qed.
+Lemma is_prefix_firstn k y : is_prefix (firstn k y) y.
+Proof. exists (skipn k y). symmetry. apply firstn_skipn. Qed.
+Lemma is_prefix_length x y : is_prefix x y -> length x <= length y.
+Proof. intros [t ->]. rewrite app_length. lia. Qed.
+Lemma is_prefix_is_firstn x y : is_prefix x y -> x = firstn (length x) y.
+Proof. intros [t ->]. rewrite firstn_app, firstn_all, Nat.sub_diag. cbn. now rewrite app_nil_r. Qed.
+
+(* x is a prefix of the combined id exactly when its two parts are prefixes of the two ids *)
+Lemma prefix_iff_pat pat : forall p s x,
+  count_false pat <= length p -> count_true pat <= length s -> length x <= length pat ->
+  (is_prefix x (combine_pat pat p s) <->
+   is_prefix (fst (separate_pat pat x)) p /\ is_prefix (snd (separate_pat pat x)) s).
+Proof. unfold count_false, count_true. induction pat as [|b pat IH]; intros p s x Hp Hs Hx.
+  - destruct x; [|cbn in Hx; lia]. cbn. split; [intros _; split; apply is_prefix_nil|intros _; apply is_prefix_nil].
+  - destruct x as [|c x'].
+    { cbn [separate_pat fst snd]. split; [intros _; split; apply is_prefix_nil|intros _; apply is_prefix_nil]. }
+    cbn [length] in Hx. destruct b; cbn [filter negb length] in Hp, Hs.
+    + destruct s as [|y s']; [cbn in Hs; lia|]. cbn [combine_pat separate_pat length] in *.
+      specialize (IH p s' x'). destruct (separate_pat pat x') as [p0 s0]. cbn [fst snd] in *.
+      rewrite !is_prefix_cons, IH by lia. tauto.
+    + destruct p as [|y p']; [cbn in Hp; lia|]. cbn [combine_pat separate_pat length] in *.
+      specialize (IH p' s x'). destruct (separate_pat pat x') as [p0 s0]. cbn [fst snd] in *.
+      rewrite !is_prefix_cons, IH by lia. tauto. Qed.
+
+Lemma prefix_iff p s x : length p = 64 -> length s = 64 -> length x <= 64 ->
+  (is_prefix x (combine_ids p s) <->
+   is_prefix (fst (separate_ids x)) p /\ is_prefix (snd (separate_ids x)) s).
+Proof. intros Hp Hs Hx. destruct pattern_counts as (A & B & C). apply prefix_iff_pat; lia. Qed.
+
+Lemma prefix_iff_go p s x : length p = 64 -> length s = 64 -> length x <= 64 ->
+  (is_prefix x (combine_ids p s) <->
+   is_prefix (fst (separate_go x)) p /\ is_prefix (snd (separate_go x)) s).
+Proof. intros Hp Hs Hx. rewrite separate_go_ids by exact Hx. now apply prefix_iff. Qed.
+
+Lemma separate_prefix_np p s k : length p = 64 -> length s = 64 -> k <= 64 ->
+  separate_ids (firstn k (combine_ids p s)) = (firstn (np k) p, firstn (ns k) s) /\ np k + ns k = k.
+Proof. intros Hp Hs Hk. split; [now apply C13_separate_prefix|now apply np_ns]. Qed.
+
+(* ---- decidable symbols: prefix test, id equality ---- *)
+Variable sym_eqb : sym -> sym -> bool.
+Hypothesis sym_eqb_spec : forall a b, sym_eqb a b = true <-> a = b.
+
+Definition id := list sym.
+
+(* strings.HasPrefix(y, x) *)
+Fixpoint prefixb (x y : id) : bool :=
+  match x, y with
+  | [], _ => true
+  | a :: x', b :: y' => sym_eqb a b && prefixb x' y'
+  | _ :: _, [] => false
+  end.
+Lemma prefixb_spec x : forall y, prefixb x y = true <-> is_prefix x y.
+Proof. induction x as [|a x IH]; intros y; cbn.
+  - split; [intros _; apply is_prefix_nil|reflexivity].
+  - destruct y as [|b y].
+    + split; [discriminate|intros H; now apply is_prefix_of_nil in H].
+    + rewrite andb_true_iff, is_prefix_cons, sym_eqb_spec, IH. tauto. Qed.
+
+Fixpoint id_eqb (x y : id) : bool :=
+  match x, y with
+  | [], [] => true
+  | a :: x', b :: y' => sym_eqb a b && id_eqb x' y'
+  | _, _ => false
+  end.
+Lemma id_eqb_spec x : forall y, id_eqb x y = true <-> x = y.
+Proof. induction x as [|a x IH]; intros [|b y]; cbn; try (split; [discriminate|congruence]); [tauto|].
+  rewrite andb_true_iff, sym_eqb_spec, IH. split; [intros [-> ->]; reflexivity|intros H; inversion H; auto]. Qed.
+
+(* ---- cache/subcache.go: ResolvePrefix / ResolveExcerptPrefix over resolveMatcher ----
+   pop enumerates the excerpt map (keys are unique; the enumeration order is Go's map order, i.e. arbitrary) *)
+Inductive rres := RFound (i : id) | RMultiple (l : list id) | RNotFound.
+
+Definition matching (pop : list id) (pfx : id) : list id := filter (prefixb pfx) pop.
+
+Definition resolve_prefix (pop : list id) (pfx : id) : rres :=
+  let m := matching pop pfx in
+  if Nat.ltb 1 (length m) then RMultiple m              (* len(matching) > 1  *)
+  else if Nat.eqb (length m) 0 then RNotFound           (* len(matching) == 0 *)
+  else match m with a :: _ => RFound a | [] => RNotFound end.   (* matching[0] *)
+
+Definition matches (pop : list id) (pfx i : id) := In i pop /\ is_prefix pfx i.
+
+Lemma matching_spec pop pfx i : In i (matching pop pfx) <-> matches pop pfx i.
+Proof. unfold matching, matches. rewrite filter_In, prefixb_spec. tauto. Qed.
+
+Theorem resolve_spec pop pfx : NoDup pop ->
+  ((forall i, ~ matches pop pfx i) <-> resolve_prefix pop pfx = RNotFound) /\
+  (forall a, (matches pop pfx a /\ forall b, matches pop pfx b -> b = a) <-> resolve_prefix pop pfx = RFound a) /\
+  (forall l, resolve_prefix pop pfx = RMultiple l ->
+     NoDup l /\ 2 <= length l /\ forall i, In i l <-> matches pop pfx i) /\
+  ((exists a b, a <> b /\ matches pop pfx a /\ matches pop pfx b) -> exists l, resolve_prefix pop pfx = RMultiple l).
+Proof. intros ND. pose proof (matching_spec pop pfx) as Hm.
+  assert (NDm : NoDup (matching pop pfx)) by (apply NoDup_filter; exact ND).
+  unfold resolve_prefix. destruct (matching pop pfx) as [|a0 [|b0 t]] eqn:E; cbn [length Nat.ltb Nat.leb Nat.eqb].
+  - split; [|split; [|split]].
+    + split; [reflexivity|]. intros _ i H. apply Hm in H. destruct H.
+    + intros a. split; [|discriminate]. intros [H _]. apply Hm in H. destruct H.
+    + discriminate.
+    + intros (a & b & _ & H & _). apply Hm in H. destruct H.
+  - split; [|split; [|split]].
+    + split; [|discriminate]. intros H. exfalso. apply (H a0), Hm. now left.
+    + intros a. split.
+      * intros [H _]. apply Hm in H. destruct H as [->|[]]. reflexivity.
+      * intros H. inversion H; subst. split; [apply Hm; now left|]. intros b Hb. apply Hm in Hb. destruct Hb as [->|[]]. reflexivity.
+    + discriminate.
+    + intros (a & b & Hab & Ha & Hb). apply Hm in Ha, Hb. destruct Ha as [->|[]], Hb as [->|[]]. congruence.
+  - split; [|split; [|split]].
+    + split; [|discriminate]. intros H. exfalso. apply (H a0), Hm. now left.
+    + intros a. split; [|discriminate]. intros [_ U]. exfalso. inversion NDm as [|? ? Hn _]; subst. apply Hn.
+      rewrite (U a0) by (apply Hm; now left). left. apply U, Hm. right; now left.
+    + intros l H. inversion H; subst. split; [exact NDm|]. split; [cbn; lia|]. exact Hm.
+    + intros _. eexists. reflexivity. Qed.
+
+Lemma Permutation_filter {A} (f : A -> bool) l l' : Permutation l l' -> Permutation (filter f l) (filter f l').
+Proof. induction 1 as [|x l l' _ IH|x y l|l l' l'' _ IH1 _ IH2]; cbn.
+  - constructor.
+  - destruct (f x); [now constructor|exact IH].
+  - destruct (f x), (f y); try reflexivity. apply perm_swap.
+  - now transitivity (filter f l'). Qed.
+
+(* the answer does not depend on the order in which the map is enumerated *)
+Theorem resolve_perm pop pop' pfx : Permutation pop pop' ->
+  match resolve_prefix pop pfx, resolve_prefix pop' pfx with
+  | RFound a, RFound b => a = b
+  | RNotFound, RNotFound => True
+  | RMultiple l, RMultiple l' => Permutation l l'
+  | _, _ => False
+  end.
+Proof. intros P. apply (Permutation_filter (prefixb pfx)) in P. unfold resolve_prefix. fold (matching pop pfx) (matching pop' pfx) in *.
+  destruct (matching pop pfx) as [|a0 [|b0 t]] eqn:E.
+  - apply Permutation_nil in P. rewrite P. exact I.
+  - apply Permutation_length_1_inv in P. rewrite P. reflexivity.
+  - pose proof (Permutation_length P) as L. destruct (matching pop' pfx) as [|a1 [|b1 t1]]; cbn in L; try discriminate.
+    cbn [length Nat.ltb Nat.leb]. exact P. Qed.
+
+(* ---- commands/select/select.go: Resolve. The first argument is tried as a prefix; only "not found"
+   falls back to the previously selected entity ---- *)
+Inductive sres := SFound (i : id) (rest : list id) | SMultiple (l : list id) | SNoValidId.
+
+Definition select_fallback (pop : list id) (sel : option id) (args : list id) : sres :=
+  match sel with
+  | Some i => if existsb (id_eqb i) pop then SFound i args else SNoValidId   (* a dangling selection is cleared *)
+  | None => SNoValidId
+  end.
+Definition select_resolve (pop : list id) (sel : option id) (args : list id) : sres :=
+  match args with
+  | a :: rest =>
+      match resolve_prefix pop a with
+      | RFound i => SFound i rest
+      | RMultiple l => SMultiple l
+      | RNotFound => select_fallback pop sel args
+      end
+  | [] => select_fallback pop sel args
+  end.
+
+Theorem select_spec pop sel a rest : NoDup pop ->
+  (forall i, matches pop a i -> (forall j, matches pop a j -> j = i) -> select_resolve pop sel (a :: rest) = SFound i rest) /\
+  ((exists i j, i <> j /\ matches pop a i /\ matches pop a j) ->
+     exists l, select_resolve pop sel (a :: rest) = SMultiple l /\ forall i, In i l <-> matches pop a i) /\
+  ((forall i, ~ matches pop a i) -> select_resolve pop sel (a :: rest) = select_fallback pop sel (a :: rest)).
+Proof. intros ND. destruct (resolve_spec pop a ND) as (S0 & S1 & SM & SM'). unfold select_resolve. repeat split.
+  - intros i Hi U. assert (E : resolve_prefix pop a = RFound i) by (apply S1; auto). now rewrite E.
+  - intros H. destruct (SM' H) as [l E]. rewrite E. exists l. split; [reflexivity|]. apply (SM l E).
+  - intros H. apply S0 in H. now rewrite H. Qed.
+
+(* ---- cache/bug_subcache.go: ResolveComment ----
+   a bug is its id and the ids of the operations that created its comments, in snapshot order *)
+Definition bugrec := (id * list id)%type.
+Definition comment_cids (b : bugrec) : list id := map (combine_ids (fst b)) (snd b).
+
+(* bugs whose id starts with the primary part of the split prefix *)
+Definition ccands (pop : list bugrec) (pfx : id) : list bugrec :=
+  filter (fun b => prefixb (fst (separate_go pfx)) (fst b)) pop.
+(* (bug id, combined id) of every comment of the given bugs whose combined id starts with the whole prefix *)
+Definition cmatches_in (pfx : id) (bs : list bugrec) : list (id * id) :=
+  flat_map (fun b => map (fun c => (fst b, c)) (filter (prefixb pfx) (comment_cids b))) bs.
+
+Inductive cres := CFound (bug cid : id) | CMultiple (bugs : list id) | CNone.
+
+Definition resolve_comment (pop : list bugrec) (pfx : id) : cres :=
+  let m := cmatches_in pfx (ccands pop pfx) in
+  if Nat.ltb 1 (length m) then CMultiple (map fst m)      (* one bug id per matching comment *)
+  else if Nat.eqb (length m) 0 then CNone                  (* errors.New("comment doesn't exist") *)
+  else match m with (b, c) :: _ => CFound b c | [] => CNone end.
+
+Definition wf_pop (pop : list bugrec) :=
+  forall b, In b pop -> length (fst b) = 64 /\ forall s, In s (snd b) -> length s = 64.
+
+Lemma filter_none {A} (f : A -> bool) l : (forall x, In x l -> f x = false) -> filter f l = [].
+Proof. induction l as [|x l IH]; intros H; cbn; [reflexivity|]. rewrite (H x) by now left. apply IH. intros y Hy. apply H. now right. Qed.
+
+(* the candidate filter by primary prefix loses nothing *)
+Lemma cands_lose_nothing pop pfx : wf_pop pop -> cmatches_in pfx (ccands pop pfx) = cmatches_in pfx pop.
+Proof. unfold ccands. induction pop as [|b pop IH]; intros W; [reflexivity|].
+  assert (W' : wf_pop pop) by (intros x Hx; apply W; now right).
+  cbn [filter]. destruct (prefixb (fst (separate_go pfx)) (fst b)) eqn:E.
+  - cbn [cmatches_in flat_map]. f_equal. apply IH, W'.
+  - cbn [cmatches_in flat_map]. rewrite (filter_none (prefixb pfx) (comment_cids b)); [cbn [map app]; apply IH, W'|].
+    intros c Hc. unfold comment_cids in Hc. apply in_map_iff in Hc as (s & <- & Hs).
+    destruct (W b (or_introl eq_refl)) as [Lb Ls]. specialize (Ls s Hs).
+    destruct (prefixb pfx (combine_ids (fst b) s)) eqn:F; [|reflexivity]. exfalso.
+    apply prefixb_spec in F. pose proof (is_prefix_length _ _ F) as L.
+    destruct (combine_lengths (fst b) s Lb Ls) as [Lc _]. rewrite Lc in L.
+    apply (prefix_iff (fst b) s pfx Lb Ls L) in F. destruct F as [F _].
+    rewrite <- separate_go_ids in F by exact L. apply prefixb_spec in F. congruence. Qed.
+
+(* every comment of the population, as (bug id, operation id) *)
+Definition all_comments (pop : list bugrec) : list (id * id) :=
+  flat_map (fun b => map (fun s => (fst b, s)) (snd b)) pop.
+Definition cid_of (bs : id * id) : id := combine_ids (fst bs) (snd bs).
+Definition cmatch (pfx : id) (bs : id * id) := is_prefix pfx (cid_of bs).
+
+Lemma cid_of_pair (b s : id) : cid_of (b, s) = combine_ids b s.
+Proof. reflexivity. Qed.
+
+Lemma cmatches_map pfx pop :
+  cmatches_in pfx pop = map (fun bs => (fst bs, cid_of bs)) (filter (fun bs => prefixb pfx (cid_of bs)) (all_comments pop)).
+Proof. unfold cmatches_in, all_comments. induction pop as [|b pop IH]; [reflexivity|].
+  cbn [flat_map]. rewrite filter_app, map_app, <- IH. f_equal.
+  unfold comment_cids. induction (snd b) as [|s l IHl]; [reflexivity|].
+  cbn [map filter]. rewrite cid_of_pair.
+  destruct (prefixb pfx (combine_ids (fst b) s)); cbn [map]; rewrite IHl; reflexivity. Qed.
+
+Theorem comment_sound_complete pop pfx : wf_pop pop -> NoDup (all_comments pop) ->
+  (* a prefix that identifies a single comment resolves to it and to its bug *)
+  (forall bs, In bs (all_comments pop) -> cmatch pfx bs ->
+     (forall bs', In bs' (all_comments pop) -> cmatch pfx bs' -> bs' = bs) ->
+     resolve_comment pop pfx = CFound (fst bs) (cid_of bs)) /\
+  (* and whatever it resolves to is the single comment the prefix identifies *)
+  (forall b c, resolve_comment pop pfx = CFound b c ->
+     exists s, c = combine_ids b s /\ In (b, s) (all_comments pop) /\ is_prefix pfx c /\
+               forall bs', In bs' (all_comments pop) -> cmatch pfx bs' -> bs' = (b, s)) /\
+  (resolve_comment pop pfx = CNone <-> forall bs, In bs (all_comments pop) -> ~ cmatch pfx bs) /\
+  (forall l, resolve_comment pop pfx = CMultiple l ->
+     forall b, In b l <-> exists s, In (b, s) (all_comments pop) /\ cmatch pfx (b, s)).
+Proof. intros W ND. unfold resolve_comment. rewrite (cands_lose_nothing pop pfx W), cmatches_map.
+  set (g := fun bs : id * id => prefixb pfx (cid_of bs)).
+  assert (Hm : forall bs, In bs (filter g (all_comments pop)) <-> In bs (all_comments pop) /\ cmatch pfx bs).
+  { intros bs. unfold g, cmatch. rewrite filter_In, prefixb_spec. tauto. }
+  assert (NDm : NoDup (filter g (all_comments pop))) by (apply NoDup_filter; exact ND).
+  destruct (filter g (all_comments pop)) as [|x [|y t]] eqn:E; cbn [map length Nat.ltb Nat.leb Nat.eqb].
+  - split; [|split; [|split]].
+    + intros bs Hi Hc _. exfalso. apply (proj2 (Hm bs)); auto.
+    + discriminate.
+    + split; [|reflexivity]. intros _ bs Hi Hc. apply (proj2 (Hm bs)); auto.
+    + discriminate.
+  - split; [|split; [|split]].
+    + intros bs Hi Hc _. destruct (proj2 (Hm bs) (conj Hi Hc)) as [->|[]]. reflexivity.
+    + intros b c H. inversion H; subst. exists (snd x). destruct (proj1 (Hm x) (or_introl eq_refl)) as [Hi Hc].
+      split; [reflexivity|]. split; [rewrite <- surjective_pairing; exact Hi|]. split; [exact Hc|].
+      intros bs' Hi' Hc'. destruct (proj2 (Hm bs') (conj Hi' Hc')) as [<-|[]]. apply surjective_pairing.
+    + split; [discriminate|]. intros H. exfalso. destruct (proj1 (Hm x) (or_introl eq_refl)) as [Hi Hc]. exact (H x Hi Hc).
+    + discriminate.
+  - split; [|split; [|split]].
+    + intros bs Hi Hc U. exfalso. inversion NDm as [|? ? Hn _]; subst. apply Hn.
+      destruct (proj1 (Hm x) (or_introl eq_refl)) as [Hix Hcx].
+      destruct (proj1 (Hm y) (or_intror (or_introl eq_refl))) as [Hiy Hcy].
+      rewrite (U x Hix Hcx), <- (U y Hiy Hcy). now left.
+    + discriminate.
+    + split; [discriminate|]. intros H. exfalso. destruct (proj1 (Hm x) (or_introl eq_refl)) as [Hi Hc]. exact (H x Hi Hc).
+    + intros l H. inversion H as [H']. clear H H'. intros b.
+      change (fst x :: fst y :: map fst (map (fun bs : id * id => (fst bs, cid_of bs)) t))
+        with (map fst (map (fun bs : id * id => (fst bs, cid_of bs)) (x :: y :: t))).
+      rewrite map_map. cbn [fst]. rewrite in_map_iff. split.
+      * intros (bs & <- & Hi). apply Hm in Hi. exists (snd bs). rewrite <- surjective_pairing. exact Hi.
+      * intros (s0 & Hi & Hc). exists (b, s0). split; [reflexivity|]. apply Hm. auto. Qed.
+
 End Ids.
 Print Assumptions C13_separate_prefix.
+Print Assumptions comment_sound_complete.
